@@ -33,28 +33,57 @@ Theorem C12_scalar_range : forall d, 0 <= d ->
 Proof. exact scalar_range. Qed.
 Print Assumptions C12_scalar_range.
 
-(* sm2_z256_point_from_octets as it is: 04||0^64 and 00 are accepted as the point at infinity,
-   and an empty input is read out of bounds *)
-Theorem C12_from_octets_valid_refuted :
-  point_from_octets ZOps Z.ltb KpZ pin0 65 4 0 0 = Some (1, point_infinity Z FpZ) /\
-  point_from_octets ZOps Z.ltb KpZ pin0 1 0 0 0 = Some (1, point_infinity Z FpZ) /\
-  point_from_octets ZOps Z.ltb KpZ pin0 0 0 0 0 = None.
-Proof. exact from_octets_valid_refuted. Qed.
-Print Assumptions C12_from_octets_valid_refuted.
+(* sm2_z256_point_from_octets: uncompressed octets are accepted exactly on the valid public
+   points (never infinity); success always comes from from_bytes / from_x_bytes; 00, other
+   prefixes and the empty input are refused *)
+Theorem C12_from_octets_uncompressed_ok_iff : forall Pin x y, 0 <= x -> 0 <= y ->
+  (exists P, point_from_octets ZOps Z.ltb KpZ Pin 65 4 x y = Some (1, P)) <->
+  x < c_p /\ y < c_p /\ ~ (x = 0 /\ y = 0) /\
+  (y * y) mod c_p = (x * x * x + sm2_a * x + sm2_b) mod c_p.
+Proof. exact from_octets_uncompressed_ok_iff. Qed.
+Print Assumptions C12_from_octets_uncompressed_ok_iff.
 
-(* the repaired decoder succeeds only through a successful from_bytes / from_x_bytes *)
-Theorem C12_from_octets_fixed_sound : forall Pin inlen prefix x y P,
-  point_from_octets_fixed ZOps Z.ltb KpZ Pin inlen prefix x y = Some (1, P) ->
+Theorem C12_from_octets_result_normalised : forall Pin x y P,
+  point_from_octets ZOps Z.ltb KpZ Pin 65 4 x y = Some (1, P) ->
+  P = (vto_mont ZOps Z.ltb KpZ x, vto_mont ZOps Z.ltb KpZ y, knegm KpZ).
+Proof. exact from_octets_result_normalised. Qed.
+Print Assumptions C12_from_octets_result_normalised.
+
+Theorem C12_from_octets_sound : forall Pin inlen prefix x y P,
+  point_from_octets ZOps Z.ltb KpZ Pin inlen prefix x y = Some (1, P) ->
   (prefix = 4 /\ inlen = 65 /\ point_from_bytes ZOps Z.ltb KpZ Pin x y = (1, P)) \/
   ((prefix = 2 \/ prefix = 3) /\ inlen = 33 /\
    point_from_x_bytes ZOps Z.ltb KpZ Pin x (prefix =? 3) = (1, P)).
-Proof. exact from_octets_fixed_sound. Qed.
-Print Assumptions C12_from_octets_fixed_sound.
+Proof. exact from_octets_sound. Qed.
+Print Assumptions C12_from_octets_sound.
 
-(* sm2_z256_point_to_compressed_octets writes y where x belongs *)
-Theorem C12_compress_refuted :
-  point_to_compressed ZOps Z.ltb KpZ Gj = Some (2, sm2_Gy) /\
-  point_to_compressed_fixed ZOps Z.ltb KpZ Gj = Some (2, sm2_Gx) /\
+Theorem C12_from_octets_complete : forall Pin inlen prefix x y P,
+  (prefix = 4 /\ inlen = 65 /\ point_from_bytes ZOps Z.ltb KpZ Pin x y = (1, P)) \/
+  ((prefix = 2 \/ prefix = 3) /\ inlen = 33 /\
+   point_from_x_bytes ZOps Z.ltb KpZ Pin x (prefix =? 3) = (1, P)) ->
+  point_from_octets ZOps Z.ltb KpZ Pin inlen prefix x y = Some (1, P).
+Proof. exact from_octets_complete. Qed.
+Print Assumptions C12_from_octets_complete.
+
+Theorem C12_from_octets_refuses : forall Pin inlen prefix x y,
+  inlen = 0 \/ (prefix <> 2 /\ prefix <> 3 /\ prefix <> 4) ->
+  point_from_octets ZOps Z.ltb KpZ Pin inlen prefix x y = Some (-1, Pin).
+Proof. exact from_octets_refuses. Qed.
+Print Assumptions C12_from_octets_refuses.
+
+(* witnesses about the decoder before the repair: 04||0^64 and 00 were accepted as the point at
+   infinity, and an empty input was read out of bounds *)
+Theorem C12_from_octets_old_refuted :
+  point_from_octets_old ZOps Z.ltb KpZ pin0 65 4 0 0 = Some (1, point_infinity Z FpZ) /\
+  point_from_octets_old ZOps Z.ltb KpZ pin0 1 0 0 0 = Some (1, point_infinity Z FpZ) /\
+  point_from_octets_old ZOps Z.ltb KpZ pin0 0 0 0 0 = None.
+Proof. exact from_octets_old_refuted. Qed.
+Print Assumptions C12_from_octets_old_refuted.
+
+(* witness about the old compression: it wrote y where x belongs *)
+Theorem C12_compress_old_refuted :
+  point_to_compressed_old ZOps Z.ltb KpZ Gj = Some (2, sm2_Gy) /\
+  point_to_compressed ZOps Z.ltb KpZ Gj = Some (2, sm2_Gx) /\
   sm2_Gx <> sm2_Gy.
-Proof. exact compress_refuted. Qed.
-Print Assumptions C12_compress_refuted.
+Proof. exact compress_old_refuted. Qed.
+Print Assumptions C12_compress_old_refuted.
